@@ -103,15 +103,20 @@ PROPS["C19"] = {
     "profiles": ["dev"],
     "theorems": [
         "MsiProofs.C19.gen_table_agrees", "MsiProofs.C19.printer_shape", "MsiProofs.C19.spellings",
+        "MsiProofs.C19.render_toks", "MsiProofs.C19.read_print", "MsiProofs.C19.read_print_in_context",
+        "MsiProofs.C19.read_print_eval",
     ],
     "level_text": "Lean: the printer model (format_with_precedence) is parametric in precedences and spellings regenerated from expr.rs; "
-                  "theorems: the regenerated table is the grammar's ladder, the printer has the modelled shape, spellings are the grammar's tokens; "
+                  "theorems: READER ROUND TRIP for every tree (no depth bound): the token form of the printer spells exactly the printed text (render_toks) "
+                  "and a precedence-climbing reader whose ladder is written out independently of the generated tables reads it back as the original tree "
+                  "(read_print; also in any context, for WHERE/ON clauses), hence evaluates identically on every row; the regenerated table is the grammar's ladder, "
+                  "the printer has the modelled shape, spellings are the grammar's tokens; "
                   "tie: real to_string() vs the model's printer on every parent/child operator pair, all small trees and random deep trees; "
                   "oracle: an independent precedence-climbing reader (harness/src/reader.rs) reads the REAL text back and the result is "
                   "re-evaluated on sample rows against the original expression.",
-    "level_note": "Trusted: Lean kernel, translator, hand model of the printer, the Rust reader used as oracle. The reader round-trip theorem "
-                  "(read (tokens (fmt e)) = e for all trees) is stated in DESIGN.md and not yet proved in Lean; until then the unbounded claim rests "
-                  "on the printer model + table theorems and the per-pair enumeration.",
+    "level_note": "Trusted: Lean kernel, translator, hand model of the printer, the Rust reader used as oracle. The round-trip theorem is at token level: the lexical layer "
+                  "(characters -> tokens: identifiers, numbers, quoted strings, '-' by position) and the four query printers are tied by the independent Rust "
+                  "reader on the real text, not by a Lean theorem.",
     "technique": "Lean 4 table theorems over regenerated precedences + printer correspondence + independent reader oracle",
     "rule": "every parent/child operator pair (18x18) on either side; all depth-1 trees over 7 leaves; seeded depth-2 and random trees to depth 5. "
             "non-trivial = distinct printed texts of depth >= 2",
@@ -352,7 +357,7 @@ PROPS["C09"] = {
     "level_text": "Lean theorem: in the model every unwrap / index / panic! / debug_assert! of the Rust is a visible `panic` outcome, and Package::open has no reachable panic outcome for ANY container (any map from stream names to byte strings, any root class id) - proved by showing every reader (property set with seeks, string pool with the long-string escape, column-major tables, the three catalog passes, type words) panic-free under bind. Partial: bytes -> container is the cfb crate, and mutating operations on foreign files are tied by correspondence rather than proved. Tie: three-way outcome diff (value / error kind / panic) of open and of a battery of read and mutate+flush calls on structure-aware corruptions of three base files (one written by the library, two by the independent encoder incl. three-byte references): any word of any stream replaced (null / dangling / huge reference, out-of-range number, pool lengths and counts, header words), streams truncated, extended, missing, property-set bytes mutated, wrong class id; plus raw and byte-damaged files straight into Package::open (fuzzing in support).",
     "level_note": PROPS["C01"]["level_note"] + " FFI (ffi/src/lib.rs) is not executed by the harness: its two panic sites were repaired and its calls are the same open / getters / select exercised here.",
     "technique": "Lean 4 proof (panic-freedom of the reader for all containers) + three-way outcome differential testing on corruptions",
-    "rule": "one corruption per case (open walks a HashMap: with two faults the first error met is not fixed); kinds: word_replaced, truncated, halved, extended, stream_missing, summary_byte, wrong_clsid; each followed by a fixed battery of 18 calls; raw byte inputs: random bytes, truncated files, files with 1-4 damaged bytes. non-trivial = distinct inputs",
+    "rule": "one corruption per case (open walks a HashMap: with two faults the first error met is not fixed); kinds: word_replaced, truncated, halved, extended, stream_missing, summary_byte, summary_values (well-formed property set, hostile values), pool_lengths (long-string escapes summing past 2^32), wrong_clsid; each followed by a fixed battery of 18 calls; raw byte inputs: random bytes, truncated files, files with 1-4 damaged bytes. non-trivial = distinct inputs",
     "trusted_base": PROPS["C01"]["trusted_base"] + ["cfb 0.10 (bytes -> container; its Stream::seek refuses positions beyond the end)"],
     "assumptions": ["allocation failure for attacker-chosen lengths (up to 4 GiB, lazily committed on Linux) is outside the model"],
 }
